@@ -58,6 +58,9 @@ def run(ctx):
             continue
         for route in ('rescale', 'resample'):
             plane = smooth_plane(lentil, p['shape'], p['px'], p['nseg'], cls='Pupil' if p['nseg'] % 2 else 'Plane')
+            if p['px'] != [] and (len(p['shape']) + p['nseg'] + int(s * 4)) % 2 == 0:
+                # half of the planes carry a fitted tilt already (Tilt objects on plane.tilt) when they are resized
+                plane.fit_tilt(inplace=True)
             before = pickle.dumps(plane)
             sig = {'route': route, 'upscale': s > 1, 'nseg>1': p['nseg'] > 1, 'px': 'none' if p['px'] == [] else ('square' if p['px'][0] == p['px'][1] else 'nonsquare')}
             detail = {'shape': p['shape'], 'px': p['px'], 'scale': str(s), 'nseg': p['nseg']}
@@ -119,12 +122,26 @@ def run(ctx):
                 for arr in (r.amplitude, r.opd, r.mask):
                     if isinstance(arr, np.ndarray) and arr.flags.writeable:
                         arr[...] = 0
+                for t_ in r.tilt:
+                    t_.x += 1e-6              # (the recorded tilts of the RESULT are trimmed in place)
                 r.tilt.append(lentil.Tilt(1e-6, -2e-6))
                 r.fit_tilt(inplace=True)
             except Exception:
                 pass                 # (a plane without a pixel scale refuses to fit tilt: whether the use succeeds is not the point)
             if pickle.dumps(plane) != before:
                 ctx.violation(dict(sig, kind='original-shares-state-with-result'), detail, case=None)
+    # a plane whose OPD is ONE number (a piston held in a 0-d array): the result's piston is the result's
+    for sc_ in (0.5, 1.5, 2.0):
+        ctx.case(('scalar-opd-then-edit', sc_))
+        pl_ = lentil.Pupil(amplitude=lentil.circle((24, 24), 9), opd=np.array(1e-7), pixelscale=1e-3, focal_length=2.0)
+        b4_ = pickle.dumps(pl_)
+        rr_ = pl_.rescale(sc_)
+        try:
+            rr_.opd += 5e-8
+        except Exception:
+            pass
+        if pickle.dumps(pl_) != b4_:
+            ctx.violation({'kind': 'original-shares-state-with-result', 'opd': 'scalar', 'upscale': sc_ > 1}, {'scale': sc_}, case=None)
     # ---- numeric leaf: power and propagated image to interpolation accuracy ------------------------------------------------------
     nleaf = 0
     for shape in ((32, 32), (33, 31), (40, 36)):
